@@ -337,7 +337,8 @@ PROP = Prop(
           "instant round trips; pairs of neighbouring periods of one unit (collision search); (ii) `txt parse` on every valid spelling of a "
           "period, on strings built to fall in each rejection class of the statement (impossible date, finer unit, non-integer size, unknown "
           "unit, extra fields), on single-edit mutations over the alphabet 0-9 - : W . + _ space a-z, and on short tails over {0,1,9,-,:,W} "
-          "appended to valid prefixes. Non-trivial = accepted by the parser or built for a rejection class; distinct = distinct lines."),
+          "appended to valid prefixes; (iii) `txt disk`: the text form as a storage file name -- OnDiskStorage.put writes <str(period)>.npy in a "
+          "real directory, a second store restores its keys by parsing the file names back. Non-trivial = accepted by the parser or built for a rejection class; distinct = distinct lines."),
     assumptions=[
         "pendulum.parse(exact=True) calendar validity, Python re on the two ISO expressions and int() literal syntax are modelled on the ASCII alphabet (PeriodText.lean), tied by this correspondence",
         "claim domain: aligned periods of size >= 1, years 1000..9999, rejection classes of the statement; sizes <= 0, int() oddities (+3, 1_0, blanks), unaligned printing are compared but not binding",
